@@ -23,6 +23,24 @@ CHECKS = {
  "C18": dict(level="exploration", design="5/C18", technique="exhaustive enumeration of inputs over a class-representative alphabet against an explicit identifier DFA; accessor/display monitors",
    text="All strings up to length 6 (quick) / 7 (thorough) over a 10-symbol class-representative alphabet as single segments, all segment lists up to length 3 over a 40-string pool, Path::new over 40x1649 (ident, module) pairs and seeded replacement tables are run through Path::from_segments/new/new_with_replace and compared with a DFA oracle, including the index of the first offending segment and ident/namespace/display of the result.",
    note="Exhaustive only within the stated alphabet and length bound; replacement tables are sampled."),
+ "C01": dict(level="exploration", design="5/C01", technique="invariant walker (dense + closed) at quiescent points over every registry produced by registration histories, the runtime builder, retain and decode; hook invariants after every operation",
+   text="Every registry handed out during seeded registration histories over a compiled-in type corpus (in place after each op, frozen, prefixes, after decode / JSON round trip, after retain) and by PortableRegistryBuilder histories is walked: entry i carries id i, resolve(i) is that entry, every mentioned id at every reference position resolves. Registry/interner structural hooks run after every op.",
+   note="For builder histories closure is required only for disciplined histories (ids handed out earlier or announced by next_type_id); density always."),
+ "C02": dict(level="exploration", design="5/C02", technique="coinductive bisimulation monitor between type_info() graphs and the portable registry, from every root of every history; child-process boundary for non-termination",
+   text="For every root of every history (and every map_into_portable output) the harness evaluates type_info() itself and compares it with what the returned id resolves to: path, parameter names and skipped pattern, field names/order/type names/docs, variant names/indices/docs, array lengths, recursing into each referenced type against the id at the same position; one type identity must pair with exactly one id. Cyclic, mutually recursive and parameter-only-cyclic hand-written types are in the core corpus.",
+   note="Independent of IntoPortable. A crash while registering is a violation (termination is promised); a watchdog timeout is inconclusive."),
+ "C05": dict(level="exploration", design="5/C05", technique="history monitors: re-registration leaves snapshot unchanged; ids vs generator-computed canonical identities over all root pairs; entry count vs independent reachability walk; per-type evaluation counters + hook store-once events",
+   text="Over seeded histories with forced repetition and alias-first / target-first orders: registering a present type changes nothing; types equal up to transparent wrappers / Vec-slice / String-str / PhantomData share an id, types whose deep canonical identity differs never do; entries == distinct reachable identities; instrumented hand-written types and the DefStore hook show at most one evaluation per identity per registry.",
+   note="Pairs that differ only by an alias inside a generic argument (Vec<Box<u8>> vs Vec<u8>) are asserted neither way."),
+ "C11": dict(level="exploration", design="5/C11", technique="prefix monitor over snapshots after every operation, replay and cross-process determinism digests, constructed id-bijection for permuted roots, hook append-only monitor",
+   text="Each snapshot is an entry-for-entry prefix of the next; every id ever returned still resolves to the definition it had; replaying a history (same process and two separate processes) gives identical bytes; registering the same roots in 3 random other orders gives a registry for which an id bijection is constructed from the roots and checked total, injective and content preserving.",
+   note="Numbering order itself is never pinned."),
+ "C14": dict(level="fault_enumeration", design="5/C14", technique="fault-injection monitor: all truncations and all single-bit flips (plus insert/delete/slot-overwrite classes) of valid encodings through decode under catch_unwind, a counting allocator, re-encode/resolve oracles; ASan and Miri slices in the thorough tier",
+   text="For every base input all truncations, all single-bit flips, every byte insert/delete/duplicate position and every length/id/option/tag slot x 17 hostile encodings are decoded; plus splices, random bytes, fault sequences, lying nested lengths and JSON truncation/byte/structural faults. Observed per input: panic (catch_unwind), abort/signal (child process), peak heap <= 128*len+256KiB, accepted => re-encodes to exactly the consumed bytes, resolve answers none out of range. Thorough adds the same workload under AddressSanitizer and a Miri slice.",
+   note="Enumerated completely only for truncations/bit flips/slot overwrites of the generated base inputs; the memory bound is a fixed calibrated constant; a clean sanitizer run is 'no report on N inputs', not memory safety."),
+ "C19": dict(level="exploration", design="5/C19", technique="external-validator monitor: python jsonschema Draft-07 validation of serialised registries against schemars::schema_for!(PortableRegistry)",
+   text="The schema is generated by the real code built with the schema feature, checked with check_schema, and every serialised RegGen registry (all definition kinds, absent/present/empty optional parts, null skipped parameter, u32::MAX ids, index 255, hostile strings) is validated by an independent validator.",
+   note="Trusted: python jsonschema 4.26."),
 }
 
 NOT_YET = {}
